@@ -113,3 +113,12 @@ Definition ftable_eqb : ftable -> ftable -> bool :=
   list_eqb (fun a b => Z.eqb (fst a) (fst b) && record_eqb (snd a) (snd b)).
 Definition packed_eqb : list (Z * list record) -> list (Z * list record) -> bool :=
   list_eqb (fun a b => Z.eqb (fst a) (fst b) && list_eqb record_eqb (snd a) (snd b)).
+Definition rarg_eqb (a b : rarg) : bool :=
+  match a, b with
+  | RBase x, RBase y => val_eqb x y
+  | RNested x, RNested y => vlist_eqb x y
+  | _, _ => false
+  end.
+Definition calls_eqb : list (list rarg) -> list (list rarg) -> bool := list_eqb (list_eqb rarg_eqb).
+Definition denan_calls (cs : list (list rarg)) : list (list rarg) :=
+  map (map (fun a => match a with RNested vs => RNested (map denan vs) | RBase v => RBase v end)) cs.
